@@ -5,7 +5,7 @@ LEVEL = "model_checking"
 def run(ctx):
     for fam in ['ord']:
         sqlprop.laws(ctx, f"SqlLaws_{fam}_{ctx.tier}.cfg")
-    sqlprop.run_sql_property(ctx, corpus=['order', 'topk'], seeded=[('single', {'order_p': 1.0, 'boolops': False, 'max_rows': 6})], quick_n=300, seeded_quick=250, cfgs=[sqlprop.cfg('mem1'), sqlprop.cfg('mem_b3', batches=3), sqlprop.cfg('pq_2f_rg2', layout='parquet', files=2, rg=2), sqlprop.cfg('mem_256B_b2', batches=2, mem_limit=256)],
+    sqlprop.run_sql_property(ctx, corpus=['order', 'topk', 'limoff'], seeded=[('single', {'order_p': 1.0, 'boolops': False, 'max_rows': 6})], quick_n=300, seeded_quick=250, cfgs=[sqlprop.cfg('mem1'), sqlprop.cfg('mem_b3', batches=3), sqlprop.cfg('pq_2f_rg2', layout='parquet', files=2, rg=2), sqlprop.cfg('mem_256B_b2', batches=2, mem_limit=256)],
         rule='multi-key ORDER BY over nullable int/double/string/date columns with ties, ASC/DESC, NULLS FIRST/LAST/default, LIMIT 0..5 and OFFSET 0..4, ORDER BY columns outside the SELECT list; tie-tolerant acceptance (AcceptOrdered).')
 
 def replay(ctx, obj):
